@@ -76,8 +76,11 @@ def replay_trace(run, cid, inp, text):
                 if k != 2 or a != n: bad.append(f"line 'Shift to {n}' but cell({stack[-1]},{names[t]}) is {(k, a)}"); break
             stack.append(n)
         elif msg.startswith("Reduced using rule "):
-            r = int(msg.split()[3]); i, l, n = ri_by_r[r]
+            r = int(msg.split()[3])
+            if r not in ri_by_r: bad.append(f"line 'Reduced using rule {r}': no such rule"); break
+            i, l, n = ri_by_r[r]
             t = err if recovering else term
+            if t is None: bad.append("a reduction is traced but the lookahead term it was decided on was never reported as recognized"); break
             k, a, _ = rows[stack[-1]][ntc + t]
             if k not in (4, 5) or (k == 4 and a != i): bad.append(f"line 'Reduced using rule {r}' but cell({stack[-1]},{names[t]}) is {(k, a)}"); break
             if n: del stack[-n:]
